@@ -85,6 +85,41 @@ def _sha(path):
     return hashlib.sha1(open(path, "rb").read()).hexdigest()[:12]
 
 
+def run_copy(name, checks, seed, tier):
+    """Like run(), but against a scratch worktree of /repo with the patch applied (VERIF_REPO), leaving /repo untouched;
+    several of these can run at the same time."""
+    d = os.path.join(SEEDED, name)
+    meta = json.load(open(os.path.join(d, "meta.json")))
+    wt = "/tmp/sr_" + name
+    sh("git -C /repo worktree remove --force %s" % wt)
+    rc, o = sh("git -C /repo worktree add --detach %s HEAD" % wt)
+    if rc:
+        print(o)
+        return 2
+    try:
+        rc, o = sh("git apply %s" % os.path.join(d, "patch.diff"), cwd=wt)
+        if rc:
+            print("patch does not apply:", o)
+            return 2
+        for c in checks:
+            t0 = time.time()
+            env = dict(os.environ, VERIF_SEED=str(seed), VERIF_REPO=wt)
+            p = subprocess.run(["python3", "-m", "mon", "check", c, "--tier", tier], cwd="/verif", capture_output=True, text=True, env=env)
+            lines = [l for l in p.stdout.splitlines() if l.startswith("  class=")]
+            classes = sorted({l.split("class=")[1].split(" ")[0] for l in lines})
+            verdict = {0: "missed (exit 0)", 1: "CAUGHT", 3: "inconclusive"}.get(p.returncode, "rc=%d" % p.returncode)
+            meta["checks_run"]["%s/%s/seed%s" % (c, tier, seed)] = {"verdict": verdict, "classes": classes[:6], "wall_s": round(time.time() - t0, 1), "via": "scratch worktree (VERIF_REPO)"}
+            print(c, verdict, classes[:4], "%.0fs" % (time.time() - t0))
+            if p.returncode not in (0, 1):
+                print(p.stdout[-600:], p.stderr[-600:])
+    finally:
+        sh("git -C /repo worktree remove --force %s" % wt)
+        import hashlib
+        shutil.rmtree(os.path.join("/verif/build", "alt-" + hashlib.sha1(wt.encode()).hexdigest()[:10]), ignore_errors=True)
+    json.dump(meta, open(os.path.join(d, "meta.json"), "w"), indent=1)
+    return 0
+
+
 def run(name, checks, seed, tier):
     d = os.path.join(SEEDED, name)
     meta = json.load(open(os.path.join(d, "meta.json")))
@@ -151,4 +186,4 @@ if __name__ == "__main__":
         seed = int(a[a.index("--seed") + 1]) if "--seed" in a else 0
         tier = a[a.index("--tier") + 1] if "--tier" in a else "quick"
         checks = [x for x in a[2:] if x.startswith("C") and len(x) == 3]
-        sys.exit(run(a[1], checks, seed, tier))
+        sys.exit((run_copy if "--copy" in a else run)(a[1], checks, seed, tier))
